@@ -5,7 +5,7 @@ import subprocess
 
 from hypothesis import strategies as st
 
-from vlib import SRC, REPO, gen_tree as T, sandbox as S
+from vlib import SRC, REPO, gen_tree as T, sandbox as S, gen_cmake as G
 from vlib.harness import Result, HarnessError
 
 ID = "C19"
@@ -23,8 +23,8 @@ ASSUMPTIONS = ["CMake 3.25.1 at /usr/bin/cmake is the host; a CMake list cannot 
 BUDGET = {"quick": {"shards": 8, "examples": 25}, "thorough": {"shards": 16, "examples": 150}}
 
 CMAKE = "/usr/bin/cmake"
-PREFIXES = ["pfx", "my prefix", "a.b.c", "préfixe 漢", "p-1", "x y  z", "$dollar", "quo\"te", "back\\slash", "(paren)", "#hash", "N", "OFF", "0", "IGNORE", "a-NOTFOUND", "FALSE", "no"]
-GLOBS = ["*b.cmake", "sub", "**/sub/*", "a?.cmake", "pre*", "x y"]
+PREFIXES = ["pfx", "my prefix", "a.b.c", "préfixe 漢", "p-1", "x y  z", "$dollar", "quo\"te", "back\\slash", "(paren)", "#hash", "N", "OFF", "0", "IGNORE", "a-NOTFOUND", "FALSE", "no", "my-repo", "api-reference"]
+GLOBS = ["*b.cmake", "sub", "**/sub/*", "a?.cmake", "pre*", "x y", "third-party-release"]
 
 
 def strategy(tier):
@@ -37,8 +37,9 @@ def strategy(tier):
                                   "dir-with-faulty-file"]),
         "relative": st.booleans(),
         "out_relative": st.booleans(),
-        "extras": st.lists(extra, max_size=3),
+        "extras": G.weighted((1, st.just([])), (4, st.lists(extra, min_size=1, max_size=3))),
         "prior": st.sampled_from([True, False, False]),
+        "from_function": st.sampled_from([True, False, False]),
     })
 
 
@@ -113,7 +114,13 @@ def evaluate(case):
         with open(driver, "w", encoding="utf-8") as f:
             f.write(f"set(CMINX_EXECUTABLE {cmake_quote(wrapper)})\n")
             f.write(f"include({cmake_quote(os.path.join(REPO, 'cmake', 'cminx.cmake'))})\n")
-            f.write("cminx_gen_rst(" + " ".join(cmake_quote(a) for a in [in_arg, out_cm] + extras) + ")\n")
+            call = "cminx_gen_rst(" + " ".join(cmake_quote(a) for a in [in_arg, out_cm] + extras) + ")\n"
+            if case.get("from_function"):
+                # the call sits in a user function that itself received more arguments than it forwards
+                f.write("function(add_docs name src out group note extra1 extra2)\n  " + call + "endfunction()\n")
+                f.write('add_docs(n s o "public API" "a note" -p leaked)\n')
+            else:
+                f.write(call)
             f.write(f"file(WRITE {cmake_quote(marker)} \"done\")\n")
         env = dict(os.environ, C19_LOG=log, CMINXDIR=sb.path("cfg"), HOME=sb.path("cfg"), XDG_CONFIG_HOME=sb.path("cfg"),
                    PYTHONHASHSEED="0")
